@@ -473,8 +473,31 @@ class Context:
                 return self.uf('box_int', T.I, T.Obj)(v.t)
             return self.obj_term(I, v, node)
         ts = [bx(v) for v in vals]
-        f = self.uf('pure.' + q, *([T.Obj] * len(ts) + [self.sort_of(contract.ret)]))
-        return self.from_term(I, f(*ts), contract.ret)
+        rt = contract.ret
+        inner_t = rt.args[0] if rt.name == 'Opt' else rt
+        if isinstance(inner_t, Ty) and inner_t.name == 'Obj':
+            # a pure function returning an object: the same arguments give the same object (memoised per path)
+            fv = self.uf('pure.' + q, *([T.Obj] * len(ts) + [T.Obj]))
+            key_ = str(fv(*ts))
+            memo = I.st.heap.setdefault(('pure-objs',), {})
+            if key_ not in memo:
+                memo = dict(memo)
+                memo[key_] = self.make_object(I, inner_t.args[0], 'po_' + q.replace('.', '_'))
+                I.st.heap[('pure-objs',)] = memo
+            obj = memo[key_]
+            if rt.name == 'Opt':
+                fn = self.uf('pure.' + q + '.isnone', *([T.Obj] * len(ts) + [T.B]))
+                return VOpt(fn(*ts), obj)
+            return obj
+        if rt.name == 'Opt':
+            fn = self.uf('pure.' + q + '.isnone', *([T.Obj] * len(ts) + [T.B]))
+            fv = self.uf('pure.' + q, *([T.Obj] * len(ts) + [self.sort_of(rt.args[0])]))
+            inner = self.from_term(I, fv(*ts), rt.args[0])
+            if isinstance(inner, VOpaque):
+                I.assume(inner.t != self.NONE_OBJ) if not I.pure else None
+            return VOpt(fn(*ts), inner)
+        f = self.uf('pure.' + q, *([T.Obj] * len(ts) + [self.sort_of(rt)]))
+        return self.from_term(I, f(*ts), rt)
 
     def sql_box_str(self, t):
         return self.uf('box_str', S.sort, T.Obj)(t)
@@ -1105,11 +1128,43 @@ class Context:
         if fn == 'attr':
             node_v = I.unwrap(I.ev(node.args[0], frame))
             attrs = I.unwrap(I.getattr(node_v, 'attributes', node))
+            if isinstance(node_v, VOpaque) and node_v.label == 'missing':
+                self.qcount += 1
+                return VOpt(z3.Const('missing-attr!%d' % self.qcount, T.B), VSeq(z3.Const('missing-attrv!%d' % self.qcount, S.sort), 'str'))
+            if isinstance(node_v, VOpaque):
+                # a node known only as a term (argument of a summarised event): its attributes are functions of the term
+                kt = I.ev(node.args[1], frame).t
+                return VOpt(self.uf('node.attr.none', T.Obj, S.sort, T.B)(node_v.t, kt),
+                            VSeq(self.uf('node.attr.val', T.Obj, S.sort, S.sort)(node_v.t, kt), 'str'))
             m = I.cell(attrs).content if I.is_dict(attrs) else attrs
+            if isinstance(m, list):
+                # a concrete dict literal built by the code: look the literal key up, last binding wins
+                kname = self.const_str(I, I.ev(node.args[1], frame))
+                found = NONE
+                for k_, v_ in m:
+                    if isinstance(k_, VSeq) and self.seq_literal(k_.t) is not None and ''.join(map(chr, self.seq_literal(k_.t))) == kname:
+                        found = v_
+                return found
             if not isinstance(m, VMap):
                 raise Unsupported('attr() needs a node with a symbolic attribute map', node)
             kt = self.map_key_term(I, m, I.ev(node.args[1], frame), node)
             return VOpt(z3.Not(m.th.Has(m.t, kt)), self.map_val_wrap(I, m, m.th.Get(m.t, kt)))
+        if fn in ('n_children', 'child'):
+            node_v = I.unwrap(I.ev(node.args[0], frame))
+            if isinstance(node_v, VOpaque):
+                self.qcount += 1
+                return VInt(z3.Int('missing-n!%d' % self.qcount)) if fn == 'n_children' else VOpaque(z3.Const('missing-child!%d' % self.qcount, T.Obj), 'missing')
+            ch = I.unwrap(I.getattr(node_v, 'children', node))
+            if not (I.is_list(ch) and isinstance(I.cell(ch).content, list)):
+                raise Unsupported('%s() needs a node built by the code (concrete child list)' % fn, node)
+            items = I.cell(ch).content
+            if fn == 'n_children':
+                return VInt(len(items))
+            k = VInt(I.as_int(I.ev(node.args[1], frame))).const()
+            if k is None or k >= len(items):
+                self.qcount += 1
+                return VOpaque(z3.Const('missing-child!%d' % self.qcount, T.Obj), 'missing')
+            return items[k]
         if fn in ('map_del', 'map_put'):
             a0 = I.unwrap(I.ev(node.args[0], frame))
             m = a0 if isinstance(a0, VMap) else I.cell(a0).content
@@ -1202,6 +1257,22 @@ class Context:
                 self.qcount += 1
                 return VOpaque(z3.Const('missing-event!%d' % self.qcount, T.Obj), 'missing')
             return evs[k].recv[0]
+        if fn == 'field':
+            o = I.unwrap(I.ev(node.args[0], frame))
+            nm = self.const_str(I, I.ev(node.args[1], frame))
+            if isinstance(o, VOpaque):
+                return VOpaque(self.uf('field.' + nm, T.Obj, T.Obj)(o.t), 'field')
+            return I.getattr(o, nm, node, frame, for_call=False)
+        if fn == 'pure_child':
+            # the (assumed pure) ProtocolTreeNode.getChild(tag) of a node, as used by the code
+            n_ = I.ev(node.args[0], frame)
+            c_ = None
+            for key_, cc in self.registry.contracts.items():
+                if key_[1] == 'ProtocolTreeNode.getChild':
+                    c_ = cc
+            if c_ is None:
+                raise Unsupported('pure_child: no assumed pure contract for ProtocolTreeNode.getChild', node)
+            return self.pure_result(I, 'ProtocolTreeNode.getChild', c_, [n_, I.ev(node.args[1], frame)], node)
         if fn == 'pure_call':
             q = self.const_str(I, I.ev(node.args[0], frame))
             contract = self.registry.contracts[('<ext>', q)]
@@ -1535,7 +1606,10 @@ class Context:
         self.apply_modifies(I, contract, env)
         res = NONE
         if contract.ret is not None and contract.ret.name != 'NoneT':
-            res = self.make_symbolic(I, contract.ret, 'r_' + fi.name)
+            if contract.kw.get('pure'):
+                res = self.pure_result(I, fi.qualname, contract, [env[p] for p, _ in contract.params], node)
+            else:
+                res = self.make_symbolic(I, contract.ret, 'r_' + fi.name)
         in_callee()
         for c in contract.of('ensures'):
             v = self.eval_spec(I, c.args[0], env, contract.sidecar, pre, entry_env, result=res, has_result=True)
